@@ -1742,7 +1742,14 @@ class Message_Router( Object ):
                         ( self.service[data.service]
                           if 'service' in data and data.service in self.service
                           else "(Unknown)"), enip_format( data ))
-        data.input		= bytearray( self.produce( data ))
+        try:
+            data.input		= bytearray( self.produce( data ))
+        except Exception as exc:
+            # The replies collected don't fit (eg. beyond what the UINT offsets of a Multiple Service
+            # Packet can address): the requests were executed, once; say that the reply was too large.
+            log.normal( "%s Response could not be produced: %s", self, exc )
+            data.status		= 0x11			# Reply data too large
+            data.input		= bytearray( self.produce( data ))
         return True
 
     @classmethod
@@ -2294,6 +2301,7 @@ class Connection_Manager( Object ):
         # own encoded response. Note that we assume, here, that we are dealing with CIP Requests
         # (ie. a .service code without bit 0x80 set), thus always followed by an EPATH.
         target			= None
+        entered			= False			# Once handed to its target Object, a request is never run again
         try:
             if not targetpath: # Not required for "Connected" requests; otherwise, parse request EPATH
                 source		= rememberable( data.request.input )
@@ -2335,6 +2343,7 @@ class Connection_Manager( Object ):
                     #                 machine.name_centered(), i, s, source.sent, source.peek(),
                     #                 repr( data ) if log.getEffectiveLevel() < logging.DETAIL else misc.reprlib.repr( data ))
 
+            entered		= True
             target.request( data.request, addr=addr )
         except:
             # Parsing failure.  We're done.  Suck out some remaining input to give us some context.
@@ -2357,6 +2366,7 @@ class Connection_Manager( Object ):
                 raise
             req			= dotdict( input=data.request.input )
             try:
+                assert not entered, "request failed in its target Object"
                 source		= rememberable( req.input )
                 with answerer.parser as machine:
                     with contextlib.closing( machine.run( source=source, data=req )) as engine:
@@ -2368,6 +2378,7 @@ class Connection_Manager( Object ):
                 req		= dotdict( input=data.request.input, path=dotdict( segment=[] ))
                 req.service	= bytearray( req.input[:1] )[0] & 0x7F
             try:
+                assert not entered, "request failed in its target Object"
                 answerer.request( req, addr=addr )
             except Exception as exc:
                 req.pop( Message_Router.SV_COD_CTX, None )
